@@ -10,7 +10,7 @@ ID = 'C13'
 LEVEL = 'exploration'
 DECIDING = ['ADDR']
 MIN_EVAL = {'quick': 300000, 'thorough': 4000000}
-MIN_MONITOR = {'ADDR.rejected': 50000, 'ADDR.selected': 20000, 'ADDR.labels': 8}
+MIN_MONITOR = {'ADDR.rejected': 50000, 'ADDR.selected': 20000, 'ADDR.labels': 8, 'ADDR.read_through': 2000}
 RULE = ('COMPLETE enumeration of the selector grammar for every plate shape up to the bound (quick: all shapes up to 3x3 '
         'and 1x4, 4x1; thorough: up to 4x5 plus custom labelings and a 28-row plate): all index / label / out-of-range / '
         'unknown-label atoms incl. 0 and n+1, all slices over them with steps {None,1,2,3,n+1}, all pairs (tuples) of atoms '
@@ -88,7 +88,7 @@ def form_of(sel):
     return 'malformed'
 
 
-def compare(plate, pos, sel, M, R, counters):
+def compare(plate, pos, sel, M, R, counters, marks=None):
     rows, cols = list(plate.row_names), list(plate.column_names)
     try:
         exp = R.ref_address(rows, cols, sel)
@@ -137,6 +137,35 @@ def compare(plate, pos, sel, M, R, counters):
         M.violate(['C13'], 'ADDR', f'C13:wrong_shape_or_size:{f}',
                   {'plate': [len(rows), len(cols)], 'selector': repr(sel), 'shape': shape, 'slicer_shape': shp2, 'size': size,
                    'documented_shape': eshape})
+    elif marks is not None and counters['ADDR.selected'] % 7 == 0:
+        # what is read *through* the selection comes from the documented wells, in the documented order
+        import numpy
+        counters['ADDR.read_through'] += 1
+        try:
+            vols = numpy.asarray(sl.get_volumes(unit='uL'), dtype=float)
+            subs_ = sl.get_substances()
+            one = marks[eidx[0]]
+            mol1 = numpy.asarray(sl.get_moles(one, 'umol'), dtype=float)
+        except Exception as e:   # noqa
+            M.violate(['C13'], 'ADDR', f'C13:reading_through_a_documented_selection_raised:{f}:{type(e).__name__}',
+                      {'selector': repr(sel), 'exc': repr(e)[:200]})
+            return
+        ncols = len(cols)
+        want_v = [float(i_ * ncols + j_ + 1 + 1) for (i_, j_) in eidx]
+        want_s = {marks[ij].name for ij in eidx} | {'H2O'}
+        got_s = {x.name for x in subs_}
+        want_m = [round(1e-3 / (100.0 + (i_ * ncols + j_)) * 1e6, 6) if (i_, j_) == eidx[0] else 0.0 for (i_, j_) in eidx]
+        bad = None
+        if tuple(vols.shape) != tuple(eshape) or [round(x, 3) for x in vols.flatten()] != [round(x, 3) for x in want_v]:
+            bad = ('get_volumes', vols.flatten().tolist()[:8], want_v[:8])
+        elif got_s != want_s:
+            bad = ('get_substances', sorted(got_s)[:8], sorted(want_s)[:8])
+        elif tuple(mol1.shape) != tuple(eshape) or [x_ > 0 for x_ in mol1.flatten()] != [x_ > 0 for x_ in want_m]:
+            # (amounts are reported at the display precision: which wells hold the marker is what is compared)
+            bad = ('get_moles', mol1.flatten().tolist()[:8], want_m[:8])
+        if bad:
+            M.violate(['C13'], 'ADDR', f'C13:reading_through_selection_reads_other_wells:{bad[0]}:{f}',
+                      {'plate': [len(rows), len(cols)], 'selector': repr(sel), 'got': bad[1], 'documented': bad[2]})
 
 
 def enumerate_(rng, case, idx):
@@ -152,6 +181,17 @@ def enumerate_(rng, case, idx):
     rows = [f'r{i}' for i in range(Rn)] if custom else Rn
     cols = [f'k{j}x' for j in range(Cn)] if custom else Cn
     plate = pp.Plate('p', '1 mL', rows=rows, columns=cols)
+    # every well is marked: its own volume of water ((k+1) uL) and its own marker substance, so that whatever is read
+    # *through* a selection tells which wells the selection reads
+    water = pp.Substance.liquid('H2O', 18.0153, 1)
+    marks = {}
+    for i in range(Rn):
+        for j in range(Cn):
+            k_ = i * Cn + j
+            mk = pp.Substance.solid(f'mark{k_}', 100.0 + k_)
+            marks[(i, j)] = mk
+            src_ = pp.Container('src', initial_contents=[(water, f'{k_ + 1} uL'), (mk, '1 mg')])
+            _, plate = pp.Plate.transfer(src_, plate[i + 1, j + 1], f'{k_ + 1 + 1} uL')
     pos = {id(plate.wells[i, j]): (i, j) for i in range(Rn) for j in range(Cn)}
     rl, cl = list(plate.row_names), list(plate.column_names)
     ra, ca = atoms(rl), atoms(cl)
@@ -160,7 +200,7 @@ def enumerate_(rng, case, idx):
     M.bucket('C13/labels/' + ('custom' if custom else 'default'))
 
     def go(sel):
-        compare(plate, pos, sel, M, R, counters)
+        compare(plate, pos, sel, M, R, counters, marks)
 
     axis_r = ra + rs
     axis_c = ca + cs
